@@ -2,7 +2,7 @@
 """C03 -- NDEF writes touch nothing outside the NDEF message area (structural clauses)."""
 import ast
 
-from ..model import norm, head, walk_no_nested, AnalysisError, FuncInfo, ClassInfo, enclosing_stmt, ancestors
+from ..model import norm, head, walk_no_nested, AnalysisError, FuncInfo, ClassInfo, enclosing_stmt, ancestors, live
 from ..cfg import cfg_of
 from ..q import (find, match, const, try_const, only_via, tests, stmt_nodes, one, fmt, cfg_node_for, linear, calls)
 from ..core import key
@@ -42,6 +42,14 @@ def _skip_guarded(cfg, f, node, idx_text):
     return True, None
 
 
+def _bound_to_area_end(f, expr):
+    """expr is a local bound exactly once, to <memory>[14] * 8 + 16 (the end of the Type 2 data area from the CC)."""
+    if not isinstance(expr, ast.Name):
+        return False
+    binds = [a for a in walk_no_nested(f.node) if isinstance(a, ast.Assign) and any(norm(t) == expr.id for t in a.targets)]
+    return len(binds) == 1 and norm(binds[0].value).endswith('[14] * 8 + 16')
+
+
 def rule_guarded_stores(report, prog):
     n = 0
     for q, mem in (('nfc.tag.tt1.Type1Tag.NDEF._write_ndef_data', 'tag_memory'),
@@ -60,8 +68,9 @@ def rule_guarded_stores(report, prog):
             idx = t.slice
             it = norm(idx)
             k = key(q, 'store stays inside the NDEF area', node.ast)
-            if it in ('offset + 1',) or (isinstance(idx, ast.Slice) and norm(idx.lower) in ('offset + 1', 'offset + 2')
-                                         and norm(idx.upper) in ('offset + 3', 'offset + 4')):
+            # the TLV's own length field: L at offset + 1, the 16 bit extension at offset + 2..3 -- nothing else (offset + 2 alone is the
+            # first value position, where a reserved byte may sit)
+            if it in ('offset + 1',) or (isinstance(idx, ast.Slice) and norm(idx.lower) == 'offset + 2' and norm(idx.upper) == 'offset + 4'):
                 # the TLV's own length field: offset must be the TLV offset (not advanced) at this point
                 adv = [x for x in cfg.nodes if x.kind == 'stmt' and isinstance(x.ast, (ast.AugAssign, ast.Assign))
                        and any(norm(tt) == 'offset' for tt in (x.ast.targets if isinstance(x.ast, ast.Assign) else [x.ast.target]))]
@@ -84,7 +93,8 @@ def rule_guarded_stores(report, prog):
             if try_const(node.ast.value) == 0xFE:
                 # terminator: additionally below the end of the data area
                 ends = [(tn, 'true') for e, tn in cfg.test_nodes.items() if isinstance(e, ast.Compare) and norm(e.left) == it
-                        and isinstance(e.ops[0], ast.Lt) and ('tag_memory_size' in norm(e.comparators[0]) or '* 8 + 16' in norm(e.comparators[0]))]
+                        and isinstance(e.ops[0], ast.Lt) and ('tag_memory_size' in norm(e.comparators[0]) or '* 8 + 16' in norm(e.comparators[0])
+                                                              or _bound_to_area_end(f, e.comparators[0]))]
                 okk, p = only_via(cfg, node, ends, ps=False) if ends else (False, None)
                 report.check(okk, 'C03-R1', key(q, 'terminator only inside the data area', node.ast), f.loc(node.ast),
                              'the terminator TLV can be stored beyond the declared data area', fmt(cfg, p))
@@ -92,7 +102,9 @@ def rule_guarded_stores(report, prog):
     # the wipe loop of Type2Tag._format is bounded by the data area
     f = prog.func('nfc.tag.tt2.Type2Tag._format')
     okk = bool(find(f.node, 'memory_size = memory[14] * 8 + 16')) and \
-        any(isinstance(l, ast.For) and norm(l.iter) == 'range(offset + 3, memory_size)' for l in walk_no_nested(f.node))
+        any(isinstance(l, ast.For) and norm(l.iter) == 'range(offset + 1, memory_size)' and
+            len(live(l.body)) == 1 and isinstance(live(l.body)[0], ast.If) and norm(live(l.body)[0].test) == 'offset not in skip_bytes'
+            for l in walk_no_nested(f.node))
     report.check(okk, 'C03-R1', key(f.qname, 'wipe loop runs from behind the empty TLV to the end of the data area'), f.loc(),
                  'Type 2 wipe range changed')
     # skip set comes from the reader (same object) and the data area end from the CC
